@@ -9,6 +9,9 @@ VERSIONS = [6, 2, 3, 7, 8]
 MARGINS = [None, None, 0.5, 0.75, 1.0, 0.25]      # None = library default 0.9
 SAFETY = [0.1, 0.1, 0.0, 0.125, 0.25, 0.05]
 MAX_INTERVALS = 26        # per dimension; the generator stops refining "everything" beyond this size
+SAFETY_DEEP = [0.0, 0.05, 0.1]
+DEEP_CAP = 64             # per dimension, deep / installed families
+BOXES = [(0.0, 1.0), (0.0, 1.0), (-1.0, 1.0), (0.5, 2.0), (-3.0, 6.0), (2.0, 2.25)]
 
 
 # ----------------------------------------------------------------------------------------------- generator
@@ -21,6 +24,11 @@ def gen_case(rng, tier, what):
     lmin = min(lmin, lmax - 1)
     if lmax < 2:
         lmax = 2
+    if dim == 2 and rng.random() < 0.4:       # dim 2: lmin 1..3 with lmax = lmin+1 or lmin+2
+        lmin = rng.choice([1, 2, 3, 3])
+        lmax = max(2, lmin + rng.choice([1, 1, 2]))
+        if what >= 2 and lmax >= 5:
+            lmax = 4
     steps = rng.randrange(1, 7 if tier == 'quick' else 11)
     if dim == 4:
         steps = min(steps, 4)
@@ -33,8 +41,9 @@ def gen_case(rng, tier, what):
             lmin, lmax, steps = 1, 2, min(steps, 3)
         elif dim == 3:
             steps = min(steps, 4 if lmax <= 2 else 3)
-    boxes = [(0.0, 1.0), (0.0, 1.0), (-1.0, 1.0), (0.5, 2.0), (-3.0, 6.0), (2.0, 2.25)]
-    ab = [rng.choice(boxes) for _ in range(dim)]
+    if dim == 2 and lmax >= 4:
+        steps = min(steps, 5 if what < 2 else 4)
+    ab = [rng.choice(BOXES) for _ in range(dim)]
     return dict(what=what, dim=dim, lmin=lmin, lmax=lmax, version=rng.choice(VERSIONS),
                 rebalancing=rng.random() < 0.5, boundary=rng.random() < 0.6,
                 margin=rng.choice(MARGINS), safety=rng.choice(SAFETY),
@@ -101,6 +110,227 @@ def gen_benefits(rng, sizes, margin, mode=None):
     return 'single', bens
 
 
+# ----------------------------------------------------------------------------------------------- deep / installed families
+def gen_case_deep(rng, tier, what, lift_bias=0.0):
+    """Long histories (8-16 steps) in 2 dimensions that build deep, strongly unbalanced trees: refinement piled into one
+    dyadic region / one spike of one dimension, alternating with tied multi-interval refinement and with
+    'deepest interval + broad block on the far side' steps (which provoke rotations in the step that raises lmax).
+    Driven DIRECTLY (benefit attributes set on the objects, refine() called; no evaluation in between), so that
+    thousands of steps are affordable."""
+    lmin = rng.choice([1, 2, 3, 3])
+    lmax = max(2, lmin + rng.choice([1, 1, 1, 2]))
+    if what >= 2:
+        lmax = min(lmax, 4)
+        lmin = min(lmin, lmax - 1)
+    ab = [rng.choice(BOXES) for _ in range(2)]
+    steps = rng.randrange(8, 17) if what < 2 else rng.randrange(5, 9)
+    version = rng.choice([6, 6, 7, 8, 2, 3])
+    rebal = rng.random() < 0.9
+    if rng.random() < lift_bias:
+        # the envelope in which a rotation can lift a never-refined initial leaf to a level <= lmin (subtree maximum level
+        # <= lmin on a non-top component level): lmax = lmin + 1 >= 4, rebalancing on, the versions that use the level vector
+        lmin, lmax, version, rebal = 3, 4, rng.choice([6, 7, 8]), True
+        steps = rng.randrange(5, 12)
+    return dict(what=what, dim=2, lmin=lmin, lmax=lmax, version=version,
+                rebalancing=rebal, boundary=rng.random() < 0.7,
+                margin=rng.choice([None, None, None, 0.5, 1.0, 0.75]), safety=rng.choice(SAFETY_DEEP),
+                a=[x[0] for x in ab], b=[x[1] for x in ab], steps=steps, seed=rng.randrange(1 << 30),
+                drive='direct', family='deep')
+
+
+def _geometry(rng, n_splits, mode, base=0, maxdepth=10):
+    """random dyadic bisection of [0,1] that refines the uniform grid of level `base` (every reachable state contains the
+    points of the initial grid): list of (start, end, depth)"""
+    ivs = [(Fraction(k, 1 << base), Fraction(k + 1, 1 << base), base) for k in range(1 << base)]
+    focus = rng.choice([Fraction(0), Fraction(1), Fraction(1, 2), Fraction(rng.randrange(0, 17), 16)])
+    for _ in range(n_splits):
+        cands = [k for k, iv in enumerate(ivs) if iv[2] < maxdepth]
+        if not cands:
+            break
+        if mode == 'uniform':
+            k = rng.choice(cands)
+        elif mode == 'focus':
+            k = min(cands, key=lambda k: (abs((ivs[k][0] + ivs[k][1]) / 2 - focus), k))
+            if rng.random() < 0.35:
+                k = min(max(k + rng.choice([-2, -1, 1, 2]), 0), len(ivs) - 1)
+                if ivs[k][2] >= maxdepth:
+                    continue
+        else:
+            half = [k for k in cands if (ivs[k][0] >= Fraction(1, 2)) == (focus >= Fraction(1, 2))] or cands
+            k = rng.choice(half)
+        s_, e_, dep = ivs[k]
+        m = (s_ + e_) / 2
+        ivs[k:k + 1] = [(s_, m, dep + 1), (m, e_, dep + 1)]
+    return ivs
+
+
+def _levels_geom(ivs):
+    """levels as produced by refinement without rotations: level of a mid point = max(levels of the end points) + 1"""
+    pts = [ivs[0][0]] + [iv[1] for iv in ivs]
+    have = set(pts)
+    lev = {pts[0]: 0, pts[-1]: 0}
+    stack = [(pts[0], pts[-1])]
+    while stack:
+        s_, e_ = stack.pop()
+        m = (s_ + e_) / 2
+        if m in have:
+            lev[m] = max(lev[s_], lev[e_]) + 1
+            stack.append((s_, m))
+            stack.append((m, e_))
+    return [lev[p_] for p_ in pts]
+
+
+def _levels_bst(rng, n_pts, mode):
+    """levels of an arbitrary binary refinement tree over the inner points (a random binary-search-tree shape): every
+    level assignment that satisfies the C06 invariant arises this way"""
+    lev = [0] * n_pts
+    stack = [(1, n_pts - 1, 1)]
+    while stack:
+        lo, hi, lvl = stack.pop()
+        if lo >= hi:
+            continue
+        n = hi - lo
+        if mode == 'balanced':
+            r = lo + (n - 1) // 2 + (rng.randrange(2) if n % 2 == 0 else 0)
+        elif mode == 'random':
+            r = rng.randrange(lo, hi)
+        else:
+            mid = lo + n // 2
+            r = min(max(mid + rng.randrange(-max(1, n // 4), max(1, n // 4) + 1), lo), hi - 1)
+        lev[r] = lvl
+        stack.append((lo, r, lvl + 1))
+        stack.append((r + 1, hi, lvl + 1))
+    return lev
+
+
+def gen_tree(rng, a, b, n_splits, base=0):
+    """a random VALID refinement tree on [a,b]: dyadic geometry (a refinement of the uniform grid of level `base`) + binary-tree
+    levels. Entries [start, end, l0, l1] (Fractions)."""
+    gm = rng.choice(['uniform', 'focus', 'focus', 'half'])
+    ivs = _geometry(rng, n_splits, gm, base=base)
+    lm = rng.choice(['geom', 'balanced', 'perturbed', 'perturbed', 'random'])
+    lev = _levels_geom(ivs) if lm == 'geom' else _levels_bst(rng, len(ivs) + 1, lm)
+    a, b = sx.rat(a), sx.rat(b)
+    return [[a + (b - a) * iv[0], a + (b - a) * iv[1], lev[k], lev[k + 1]] for k, iv in enumerate(ivs)], gm + '/' + lm
+
+
+def gen_case_install(rng, tier, what):
+    """One to three steps from a randomly constructed VALID deep state: the containers of a freshly initialised strategy get
+    RefinementObjectSingleDimension objects of the generated shape, refinement_postprocessing() (with or without the
+    rebalancing pass) makes coarsening levels, lmax and the scheme consistent, then refine() steps follow."""
+    c = gen_case_deep(rng, tier, what)
+    trees, shapes = [], []
+    for d in range(2):
+        # the geometry refines the initial grid of level lmax (as in every reachable state); one case in eight starts from an
+        # arbitrary valid tree instead (possibly shallower than the initial grid)
+        base = c['lmax'] if rng.random() < 0.875 else 0
+        # (at least 3 intervals: with a single inner point the version-8 loop of the library does not terminate - the
+        # degenerate case lmax = 1 that initialize_refinement rejects)
+        nsp = rng.choice([0, 3, 6, 10, 16, 24] if what < 2 else [0, 3, 6, 10, 14])
+        t, shape = gen_tree(rng, c['a'][d], c['b'][d], nsp if base > 0 else max(nsp, 3), base=base)
+        trees.append([[[o[0].numerator, o[0].denominator], [o[1].numerator, o[1].denominator], o[2], o[3]] for o in t])
+        shapes.append(shape)
+    c.update(steps=rng.randrange(1, 4), family='install', rebalancing=rng.random() < 0.85,
+             install=dict(rebalance=rng.random() < 0.5, trees=trees, shapes=shapes))
+    if rng.random() < 0.15:
+        c['drive'] = 'full'
+    return c
+
+
+def _noise(rng, margin):
+    vals = [0.0, 0.0, 0.0]
+    if margin > 0.25:
+        vals.append(0.25)
+    if margin > 0.5:
+        vals.append(0.5)
+    return rng.choice(vals)
+
+
+def gen_benefits_deep(rng, trees, memo, margin):
+    """trees: per dimension list of (start, end, l0, l1, coarsening) with start/end as Fractions in the unit interval
+    (normalised).  Selected intervals get benefit 1, all others a value strictly below margin (ties throughout)."""
+    sizes = [len(t) for t in trees]
+    nd = len(trees)
+    if 'style' not in memo:
+        memo['style'] = rng.choice(['region', 'region', 'mix', 'broad'])
+        memo['d'] = rng.randrange(nd)
+        k = rng.choice([1, 2, 2, 3, 3, 4, 4])
+        # corner, next to the corner (mass there makes the rebalancing lift the untouched neighbours), anywhere
+        j = rng.choice([0, (1 << k) - 1, 1, (1 << k) - 2, rng.randrange(1 << k), rng.randrange(1 << k)]) % (1 << k)
+        memo['reg'] = (Fraction(j, 1 << k), Fraction(j + 1, 1 << k))
+        memo['p'] = rng.choice([0.25, 0.5, 0.8])
+        memo['focus'] = Fraction(rng.randrange(0, 65), 64)
+    style = memo['style']
+    r = rng.random()
+    if style == 'region':
+        mode = 'region' if r < 0.8 else ('c0broad' if r < 0.9 else 'spike')
+    elif style == 'broad':
+        mode = 'c0broad' if r < 0.6 else ('spike' if r < 0.85 else 'region')
+    else:
+        mode = 'spike' if r < 0.4 else ('c0broad' if r < 0.7 else ('region' if r < 0.9 else 'few'))
+    d = memo['d']
+    if max(sizes) >= DEEP_CAP - 4:
+        mode = 'spike'
+    t = trees[d]
+    sel = {}
+    if mode == 'region':
+        lo, hi = memo['reg']
+        inside = [i for i, o in enumerate(t) if lo <= o[0] and o[1] <= hi] or [i for i, o in enumerate(t) if o[0] < hi and lo < o[1]]
+        q = rng.random()
+        if q < 0.35:          # the deepest ones inside the region
+            mx = max(max(t[i][2], t[i][3]) for i in inside)
+            pick = [i for i in inside if max(t[i][2], t[i][3]) == mx]
+            pick = [i for i in pick if rng.random() < 0.7] or pick[:1]
+        elif q < 0.6:
+            pick = [rng.choice(inside)]
+        else:
+            pick = [i for i in inside if rng.random() < memo['p']] or [rng.choice(inside)]
+        sel[d] = pick
+        if rng.random() < 0.2:
+            d2 = (d + 1) % nd
+            sel[d2] = [rng.randrange(sizes[d2]) if rng.random() < 0.5 else sizes[d2] - 1]
+    elif mode == 'spike':
+        f = memo['focus']
+        i = min(range(len(t)), key=lambda k: (abs((t[k][0] + t[k][1]) / 2 - f), k))
+        pick = [i]
+        if rng.random() < 0.3:
+            pick.append(min(max(i + rng.choice([-1, 1]), 0), len(t) - 1))
+        sel[d] = pick
+    elif mode == 'c0broad':   # one (two) interval(s) of coarsening level 0 + a broad block on one side of it
+        if rng.random() < 0.3:
+            d = rng.randrange(nd)
+            t = trees[d]
+        n = len(t)
+        zero = [i for i, o in enumerate(t) if o[4] == 0] or [rng.randrange(n)]
+        i = rng.choice(zero)
+        pick = [i]
+        if rng.random() < 0.3:
+            pick.append(rng.choice(zero))
+        if (rng.random() < 0.5 and i >= 2) or i + 2 >= n:
+            lo, hi = 0, i
+        else:
+            lo, hi = i + 1, n
+        if hi > lo:
+            ln = rng.randrange(1, hi - lo + 1)
+            st = rng.randrange(lo, hi - ln + 1)
+            p_ = rng.choice([1.0, 1.0, 0.6])
+            pick += [k for k in range(st, st + ln) if rng.random() < p_]
+        sel[d] = pick
+    else:
+        for _ in range(rng.randrange(1, 4)):
+            d2 = rng.randrange(nd)
+            sel.setdefault(d2, []).append(rng.randrange(sizes[d2]))
+    bens = []
+    for dd in range(nd):
+        pick = sorted(set(sel.get(dd, [])))
+        room = max(1, DEEP_CAP - sizes[dd])
+        if len(pick) > room:
+            pick = sorted(rng.sample(pick, room))
+        pick = set(pick)
+        bens.append([1.0 if i in pick else _noise(rng, margin) for i in range(sizes[dd])])
+    return mode, bens
+
+
 # ----------------------------------------------------------------------------------------------- implementation
 def _snapshot(sa, what):
     trees, book = [], []
@@ -144,15 +374,31 @@ def _snapshot(sa, what):
     return st
 
 
+def _where(e):
+    import os
+    import traceback
+    repo = os.environ.get('VERIF_REPO', '/repo')
+    for fr in reversed(traceback.extract_tb(e.__traceback__)):
+        if repo in fr.filename:
+            return '%s:%d' % (os.path.relpath(fr.filename, repo), fr.lineno)
+    return ''
+
+
 def impl_run(case):
     """One scripted history on the implementation. The benefits are drawn from the case seed against the live
-    state (sizes), read back from the objects' `benefit` attribute and returned so that the model replays them."""
+    state (sizes, levels, coarsening), read back from the objects' `benefit` attribute and returned so that the model
+    replays them.
+      case['drive'] = 'full' (default): scripted ErrorCalculator, every step = refine() + continue_adaptive_refinement
+                      'direct': the benefit attributes are set on the objects, benefit_max as evaluate_operation does, refine()
+      case['install'] = dict(rebalance, trees): the run starts from an installed state (see gen_case_install)
+    An exception inside a step is returned with the history up to that step (out['exc'])."""
     import numpy as np
     from sparseSpACE.spatiallyAdaptiveSingleDimension2 import SpatiallyAdaptiveSingleDimensions2
     from sparseSpACE.ErrorCalculator import ErrorCalculator
     from sparseSpACE.Grid import GlobalTrapezoidalGrid
     from sparseSpACE.GridOperation import Integration
     from sparseSpACE.Function import Function
+    from sparseSpACE.RefinementObject import RefinementObjectSingleDimension
 
     what = case.get('what', 0)
     rng = random.Random(case['seed'])
@@ -161,6 +407,11 @@ def impl_run(case):
     b = np.array(case['b'], dtype=float)
     margin = margin_of(case)
     fixed = case.get('bens')
+    direct = case.get('drive', 'full') == 'direct'
+    inst = case.get('install')
+    deep = case.get('family') in ('deep', 'install')
+    qa = [sx.rat(x) for x in case['a']]
+    qb = [sx.rat(x) for x in case['b']]
 
     # f(x) = sum_k alpha_k x_k^2 + prod_k (beta_k + x_k): smooth, non-multilinear, dyadic coefficients
     frng = random.Random(case['seed'] ^ 0x5f5f)
@@ -178,28 +429,41 @@ def impl_run(case):
         def output_length(self):
             return 1
 
+    state = dict(round=0, modes=[], memo={})
+
+    def containers():
+        return [sa.refinement.get_refinement_container_for_dim(d) for d in range(dim)]
+
+    def next_benefits():
+        conts = containers()
+        sizes = [c.size() for c in conts]
+        if fixed is not None and state['round'] < len(fixed):
+            bens = [[float(Fraction(*x)) if isinstance(x, (list, tuple)) else float(x) for x in bd] for bd in fixed[state['round']]]
+            mode = 'fixed'
+        elif deep:
+            trees = [[((sx.rat(o.start) - qa[d]) / (qb[d] - qa[d]), (sx.rat(o.end) - qa[d]) / (qb[d] - qa[d]),
+                       int(o.levels[0]), int(o.levels[1]), int(o.coarsening_level)) for o in c.get_objects()]
+                     for d, c in enumerate(conts)]
+            mode, bens = gen_benefits_deep(rng, trees, state['memo'], margin)
+        else:
+            mode, bens = gen_benefits(rng, sizes, margin)
+        state['modes'].append(mode)
+        return [[(bens[d][i] if i < len(bens[d]) else 0.0) for i in range(sizes[d])] for d in range(dim)]
+
     class Scripted(ErrorCalculator):
         def __init__(self):
             super().__init__()
-            self.sa = None
             self.table = None
-            self.round = 0
-            self.modes = []
 
         def calc_error(self, refine_object, norm, volume_weights=None):
+            if direct:
+                return 0.0
             if self.table is None:
-                conts = [self.sa.refinement.get_refinement_container_for_dim(d) for d in range(dim)]
-                sizes = [c.size() for c in conts]
-                if fixed is not None and self.round < len(fixed):
-                    bens = [[float(Fraction(*x)) if isinstance(x, (list, tuple)) else float(x) for x in bd] for bd in fixed[self.round]]
-                    mode = 'fixed'
-                else:
-                    mode, bens = gen_benefits(rng, sizes, margin)
-                self.modes.append(mode)
+                bens = next_benefits()
                 self.table = {}
-                for d, c in enumerate(conts):
+                for d, c in enumerate(containers()):
                     for i, o in enumerate(c.get_objects()):
-                        self.table[(d, o.start)] = bens[d][i] if i < len(bens[d]) else 0.0
+                        self.table[(d, o.start)] = bens[d][i]
             return self.table[(refine_object.this_dim, refine_object.start)]
 
     grid = GlobalTrapezoidalGrid(a, b, boundary=case['boundary'], modified_basis=False)
@@ -211,25 +475,65 @@ def impl_run(case):
         kw['margin'] = case['margin']
     sa = SpatiallyAdaptiveSingleDimensions2(a, b, **kw)
     ec = Scripted()
-    ec.sa = sa
-    sa.performSpatiallyAdaptiv(case['lmin'], case['lmax'], ec, tol=-1, max_evaluations=1, print_output=False)
+    if inst is not None and not direct:
+        direct = True            # the evaluation of the start state draws no benefits
+        sa.performSpatiallyAdaptiv(case['lmin'], case['lmax'], ec, tol=-1, max_evaluations=1, print_output=False)
+        direct = False
+    else:
+        sa.performSpatiallyAdaptiv(case['lmin'], case['lmax'], ec, tol=-1, max_evaluations=1, print_output=False)
+    out = dict(states=[], bens=[], selected=[], modes=state['modes'], max_size=0)
+    if inst is not None:
+        try:
+            for d, t in enumerate(inst['trees']):
+                c = sa.refinement.get_refinement_container_for_dim(d)
+                c.refinementObjects = [RefinementObjectSingleDimension(float(Fraction(*o[0])), float(Fraction(*o[1])), d, dim,
+                                                                       [int(o[2]), int(o[3])], grid=sa.grid, coarsening_level=0,
+                                                                       a=sa.a[d], b=sa.b[d]) for o in t]
+            rb = sa.rebalancing
+            sa.rebalancing = bool(inst['rebalance'])
+            try:
+                sa.refinement_postprocessing()
+            finally:
+                sa.rebalancing = rb
+            if not direct:
+                sa.continue_adaptive_refinement(tol=-1, max_evaluations=1)
+        except Exception as e:
+            out['exc'] = [type(e).__name__, _where(e), str(e)[:300], 0]
+            out['states'] = [_snapshot_safe(sa, what)]
+            return out
     states = [_snapshot(sa, what)]
-    bens_used, selected, max_size = [], [], 0
+    out['states'] = states
+    bens_used, selected, max_size = out['bens'], out['selected'], max(len(t) for t in states[0]['trees'])
+    out['max_size'] = max_size
     nsteps = len(fixed) if fixed is not None else case['steps']
     for step in range(nsteps):
-        conts = [sa.refinement.get_refinement_container_for_dim(d) for d in range(dim)]
+        conts = containers()
+        if direct:
+            bens = next_benefits()
+            for d, c in enumerate(conts):
+                for o, bv in zip(c.get_objects(), bens[d]):
+                    o.benefit = bv
+            sa.benefit_max = sa.refinement.get_max_benefit()      # what evaluate_operation does after the error estimation
         bens = [[sx.rat(o.benefit) for o in c.get_objects()] for c in conts]
         bens_used.append(bens)
         before = [[(o.start, o.end) for o in c.get_objects()] for c in conts]
-        sa.refine()
-        after = [set((o.start, o.end) for o in sa.refinement.get_refinement_container_for_dim(d).get_objects()) for d in range(dim)]
-        selected.append([[i for i, se in enumerate(before[d]) if se not in after[d]] for d in range(dim)])
-        ec.table = None
-        ec.round += 1
-        sa.continue_adaptive_refinement(tol=-1, max_evaluations=1)
-        states.append(_snapshot(sa, what))
+        try:
+            sa.refine()
+            after = [set((o.start, o.end) for o in sa.refinement.get_refinement_container_for_dim(d).get_objects()) for d in range(dim)]
+            selected.append([[i for i, se in enumerate(before[d]) if se not in after[d]] for d in range(dim)])
+            ec.table = None
+            state['round'] += 1
+            if not direct:
+                sa.continue_adaptive_refinement(tol=-1, max_evaluations=1)
+            states.append(_snapshot(sa, what))
+        except Exception as e:
+            out['exc'] = [type(e).__name__, _where(e), str(e)[:300], step + 1]
+            if len(selected) < len(bens_used):
+                selected.append([[] for _ in range(dim)])
+            states.append(_snapshot_safe(sa, 0))
+            return out
         max_size = max(max_size, max(len(t) for t in states[-1]['trees']))
-    out = dict(states=states, bens=bens_used, selected=selected, modes=ec.modes, max_size=max_size)
+        out['max_size'] = max_size
     if what >= 2:
         # interpolation oracle data: combined interpolant at all points of the combined grid vs the function
         pts = sorted(set(tuple(float(x) for x in p) for comp in states[-1]['points'] for p in comp[1]))
@@ -254,29 +558,38 @@ def impl_run(case):
     return out
 
 
+def _snapshot_safe(sa, what):
+    try:
+        return _snapshot(sa, what)
+    except Exception:
+        return dict(trees=[], lmax=[int(x) for x in sa.lmax], scheme=[], book=[[], 0])
+
+
 # ----------------------------------------------------------------------------------------------- float decisions
 _RB_CACHE = {}
 
 
 def rebalance_exceptions(sf, max_m):
     """Triples (pos, pos1, m) on which the binary64 test of rebalance_interval differs from exact arithmetic
-    (the safety factor is taken at its exact binary64 value)."""
+    (the safety factor is taken at its exact binary64 value).  Exact test in integers:
+    |pos/m - 1/2| > |pos1/m - 1/2| + N/D  <=>  (|2 pos - m| - |2 pos1 - m|) * D > 2 m N."""
+    max_m = 32 * ((max_m + 31) // 32)
     key = (sf, max_m)
     if key in _RB_CACHE:
         return _RB_CACHE[key]
     sfq = Fraction(sf)
-    half = Fraction(1, 2)
+    N, D = sfq.numerator, sfq.denominator
     out = []
     for m in range(1, max_m + 1):
+        fls = [abs(pos / m - 0.5) for pos in range(0, m + 2)]
+        exs = [abs(2 * pos - m) for pos in range(0, m + 2)]
+        rhs = 2 * m * N
         for pos in range(0, m + 2):
-            fl = abs(pos / m - 0.5)
-            ex = abs(Fraction(pos, m) - half)
+            fl, ex = fls[pos], exs[pos]
             for pos1 in range(0, m + 2):
                 if pos1 == pos:
                     continue
-                dfl = fl > abs(pos1 / m - 0.5) + sf
-                dex = ex > abs(Fraction(pos1, m) - half) + sfq
-                if dfl != dex:
+                if (fl > fls[pos1] + sf) != ((ex - exs[pos1]) * D > rhs):
                     out.append([pos, pos1, m])
     _RB_CACHE[key] = out
     return out
@@ -296,19 +609,28 @@ def v3_exceptions(dim, max_sv=40):
 
 def model_case(case, impl_result):
     what = case.get('what', 0)
-    max_m = max(2, (impl_result or {}).get('max_size', 8) + 2)
+    max_m = max(2, (impl_result or {}).get('max_size', 8) + 2, max([len(t) for t in (case.get('install') or {}).get('trees', [])] + [0]) + 2)
     erb = rebalance_exceptions(case['safety'], max_m) if case['rebalancing'] else []
     ev3 = v3_exceptions(case['dim']) if case['version'] == 3 else []
     bens = impl_result['bens'] if impl_result else [[[Fraction(*x) if isinstance(x, (list, tuple)) else sx.rat(x) for x in bd] for bd in st]
                                                     for st in (case.get('bens') or [])]
-    return (0, [what, case['dim'], case['lmin'], case['lmax'], case['version'], case['rebalancing'], case['boundary'],
-                sx.rat(margin_of(case)), sx.rat(case['safety']), [sx.rat(x) for x in case['a']], [sx.rat(x) for x in case['b']],
-                erb, ev3, bens])
+    hist = [what, case['dim'], case['lmin'], case['lmax'], case['version'], case['rebalancing'], case['boundary'],
+            sx.rat(margin_of(case)), sx.rat(case['safety']), [sx.rat(x) for x in case['a']], [sx.rat(x) for x in case['b']],
+            erb, ev3, bens]
+    inst = case.get('install')
+    if inst is None:
+        return (0, hist)
+    if not case['rebalancing'] and inst['rebalance']:
+        hist[11] = rebalance_exceptions(case['safety'], max_m)
+    trees = [[[Fraction(*o[0]), Fraction(*o[1]), o[2], o[3], 0] for o in t] for t in inst['trees']]
+    return (5, [hist, bool(inst['rebalance']), trees])
 
 
 def model_interp_case(case, impl_result):
-    sub, hist = model_case(case, impl_result)
-    return (4, [hist, impl_result['poly'][0], impl_result['poly'][1], impl_result['interp_points']])
+    sub, val = model_case(case, impl_result)
+    if sub == 5:
+        return (6, val + [impl_result['poly'][0], impl_result['poly'][1], impl_result['interp_points']])
+    return (4, [val, impl_result['poly'][0], impl_result['poly'][1], impl_result['interp_points']])
 
 
 def decode_model_state(ms):
@@ -432,6 +754,79 @@ def oracle_state_c03(case, st, prev=None):
     return None
 
 
+# ----------------------------------------------------------------------------------------------- rare situations
+def _point_levels(tree):
+    return [tree[0][2]] + [o[3] for o in tree]
+
+
+def state_events(case, st):
+    """rare situations of one implementation state (for the evidence histogram)"""
+    ev = set()
+    lmin = case['lmin']
+    for d, t in enumerate(st['trees']):
+        if not t:
+            continue
+        L = _point_levels(t)
+        shallow = [p for p in range(1, len(L) - 1) if 2 <= L[p] <= lmin and L[p - 1] < L[p] and L[p + 1] < L[p]]
+        if shallow:
+            ev.add('state:subtree-max-level<=lmin')
+            if st['lmax'][d] >= lmin + 2:
+                ev.add('state:subtree-max-level<=lmin&lmax_d>=lmin+2')
+        mc = max(o[4] for o in t)
+        if mc >= 2:
+            ev.add('state:coarsening>=2')
+        if mc >= 3:
+            ev.add('state:coarsening>=3')
+        if mc >= 5:
+            ev.add('state:coarsening>=5')
+        if max(L) >= 8:
+            ev.add('state:deepest-level>=8')
+        if max(L) >= 12:
+            ev.add('state:deepest-level>=12')
+        if len(t) >= 32:
+            ev.add('state:intervals>=32')
+    return ev
+
+
+def step_events(case, prev, bens, st):
+    """rare situations of one refinement step prev --bens--> st on the implementation"""
+    ev = set()
+    margin = margin_of(case)
+    bmax = max([Fraction(0)] + [b for bd in bens for b in bd])
+    inc = [y - x for x, y in zip(prev['lmax'], st['lmax'])]
+    rot = False
+    c0 = False
+    for d, t in enumerate(prev['trees']):
+        exp = []
+        for o, b in zip(t, bens[d]):
+            if float_selects(float(b), float(bmax), margin):
+                nl = max(o[2], o[3]) + 1
+                exp += [(o[2], nl), (nl, o[3])]
+                c0 = c0 or o[4] == 0
+            else:
+                exp.append((o[2], o[3]))
+        if d < len(st['trees']) and exp != [(o[2], o[3]) for o in st['trees'][d]]:
+            rot = True
+    if rot:
+        ev.add('step:rotation')
+    if c0:
+        ev.add('step:split-at-coarsening-0')
+    if inc and max(inc) >= 1:
+        ev.add('step:lmax-increase')
+        if rot:
+            ev.add('step:rotation&lmax-increase')
+    if inc and max(inc) >= 2:
+        ev.add('step:lmax-increase>=2')
+    for d, t in enumerate(st['trees']):
+        if d < len(inc) and inc[d] >= 2:
+            over = [max(o[2], o[3]) - prev['lmax'][d] for o in t if max(o[2], o[3]) > prev['lmax'][d]]
+            if over and over[-1] < max(over):
+                ev.add('step:last-overshoot<largest-overshoot')
+            if len(set(over)) >= 2:
+                ev.add('step:different-overshoots')
+    return ev
+
+
 # ----------------------------------------------------------------------------------------------- comparison
 def compare_states(case, impl_states, model_out, fields):
     """First difference between implementation states and model states: (step, field, impl, model) or None."""
@@ -444,7 +839,7 @@ def compare_states(case, impl_states, model_out, fields):
             return (step, 'model-rejects-step', None, str(model_out[step]))
         ms = decode_model_state(model_out[step])
         for fld in fields:
-            if fld in ('active', 'old') and fld not in ist:
+            if fld in ('active', 'old', 'stripes', 'points') and fld not in ist:
                 continue
             if fld == 'scheme' and step == 0:
                 pass
